@@ -279,6 +279,9 @@ def derived(tier, rng):
             ("percentile(i4, [10, 90], nearest)", lambda x: da.percentile(x.astype("i4"), [10, 90], method="nearest"), lambda a: None),
             ("percentile(u1, f4 q, midpoint)", lambda x: da.percentile(x.astype("u1"), np.array([10, 90], dtype="f4"), method="midpoint"), lambda a: None),
             ("bincount(i8, minlength=8)", lambda x: da.bincount(x.astype("i8"), minlength=8), lambda a: np.bincount(a.astype("i8"), minlength=8)),
+            ("searchsorted(swv.sum, [4, 9, 100]) [layout-drifting]",
+             lambda x: da.searchsorted(da.sliding_window_view(x.rechunk(1), 3).sum(-1).cumsum(axis=0), da.from_array(np.array([4.0, 9.0, 100.0]), chunks=1)),
+             lambda a: np.searchsorted(np.lib.stride_tricks.sliding_window_view(a, 3).sum(-1).cumsum(), [4.0, 9.0, 100.0])),
             ("apply_gufunc on swv.sum [layout-drifting]",
              lambda x: da.apply_gufunc(lambda t: t * 2, "()->()", da.sliding_window_view(x, 3).sum(-1), output_dtypes=float),
              lambda a: np.lib.stride_tricks.sliding_window_view(a, 3).sum(-1) * 2),
